@@ -68,7 +68,8 @@ func checkC18(c *Checker) {
 						// reported by H2
 					case e.Obj != nil && isArrayType(e.Obj.Typ) && varargsOnlyInPlace(e.Obj, o):
 						// go/ssa artefact: the one-element array of append(s, v); the append is in place
-					case strings.HasSuffix(name, ".Slice") && e.Obj != nil && isBufferType(e.Obj.Typ) && e.Fn == fn:
+					case strings.HasSuffix(name, ".Slice") && e.Obj != nil && isBufferType(e.Obj.Typ) && isReturnedObject(o, e.Obj):
+						// the one constant-size view header (wherever it is constructed: in Slice or in a constructor helper)
 						nHeader++
 					default:
 						okH1, d1 = false, fmt.Sprintf("allocation on a hot path: %s at %s", e.Note, c.effPos(e))
@@ -95,6 +96,11 @@ func checkC18(c *Checker) {
 	if c.Tier == "thorough" {
 		compilerCrossCheck(c, hot)
 	}
+}
+
+func isReturnedObject(o Outcome, obj *Object) bool {
+	p, ok := o.Ret.(PtrV)
+	return ok && p.Obj == obj && len(p.Path) == 0
 }
 
 func isArrayType(t types.Type) bool {
